@@ -7,7 +7,9 @@ import (
 
 	"github.com/henrylee2cn/erpc/v6/codec"
 	benchmsg "github.com/henrylee2cn/erpc/v6/examples/bench/msg"
+	wspayload "github.com/henrylee2cn/erpc/v6/mixer/websocket/pbSubProto/pb"
 	pbpayload "github.com/henrylee2cn/erpc/v6/proto/pbproto/pb"
+	"github.com/henrylee2cn/erpc/v6/socket"
 	pbtest "github.com/henrylee2cn/erpc/v6/socket/example/pb"
 )
 
@@ -299,7 +301,7 @@ type XNested struct {
 
 // same element names as XRepeated, other shapes
 type XRepeatedKinds struct {
-	LS  int   `xml:"ls"`
+	LS  int `xml:"ls"`
 	LI  []bool
 	LF  string
 	LB  []XInner
@@ -326,6 +328,7 @@ type spec struct {
 	typ      reflect.Type
 	pass     string // "value", "ptr", "either": how the value goes into Marshal
 	dest     int
+	fresh    bool     // destination slice starts with length 0 (spare capacity allowed)
 	garbOnly bool     // garbage destination only
 	oddDest  bool     // "typ" is ignored: a list of unsupported destinations
 	siblings []string // tclasses of the same codec with the same field names and other shapes
@@ -358,14 +361,29 @@ var (
 )
 
 var codecs = map[string]*codecCfg{
-	"json":     {id: codec.ID_JSON, strSet: strUTF8, eq: eqOpts{}, weight: 0.15},
-	"xml":      {id: codec.ID_XML, strSet: strXML, eq: eqOpts{nilEmpty: true}, weight: 0.10},
-	"form":     {id: codec.ID_FORM, strSet: strAll, bytesAsNums: true, eq: eqOpts{nilEmpty: true}, weight: 0.30},
-	"plain":    {id: codec.ID_PLAIN, strSet: strAll, nonfinite: true, eq: eqOpts{nilEmpty: true}, weight: 0.25},
+	"json":  {id: codec.ID_JSON, strSet: strUTF8, eq: eqOpts{}, weight: 0.15},
+	"xml":   {id: codec.ID_XML, strSet: strXML, eq: eqOpts{nilEmpty: true}, weight: 0.10},
+	"form":  {id: codec.ID_FORM, strSet: strAll, bytesAsNums: true, eq: eqOpts{nilEmpty: true}, weight: 0.28},
+	"plain": {id: codec.ID_PLAIN, strSet: strAll, nonfinite: true, eq: eqOpts{nilEmpty: true}, weight: 0.23},
+	// not a codec: socket.Message.MarshalBody / UnmarshalBody hand []byte and *[]byte bodies through
+	// whatever the body codec id says (anchor "byte-slice bodies bypass codecs")
+	"bypass":   {strSet: strAll, eq: eqOpts{nilEmpty: true}, weight: 0.04},
 	"protobuf": {id: codec.ID_PROTOBUF, strSet: strUTF8, eq: eqOpts{nilEmpty: true, skipXXX: true}, weight: 0.10},
 	"thrift":   {id: codec.ID_THRIFT, strSet: strUTF8, eq: eqOpts{nilEmpty: true}, weight: 0.10},
 }
-var codecOrder = []string{"form", "plain", "json", "xml", "protobuf", "thrift"}
+var codecOrder = []string{"form", "plain", "json", "xml", "protobuf", "thrift", "bypass"}
+
+// bypass drives socket.Message.MarshalBody / UnmarshalBody with a fixed body codec id.
+type bypass struct{ id byte }
+
+func (b bypass) ID() byte     { return b.id }
+func (b bypass) Name() string { return "bypass" }
+func (b bypass) Marshal(v interface{}) ([]byte, error) {
+	return socket.NewMessage(socket.WithBodyCodec(b.id), socket.WithBody(v)).MarshalBody()
+}
+func (b bypass) Unmarshal(data []byte, v interface{}) error {
+	return socket.NewMessage(socket.WithBodyCodec(b.id), socket.WithBody(v)).UnmarshalBody(data)
+}
 
 func buildSpecs() []*spec {
 	var out []*spec
@@ -466,6 +484,7 @@ func buildSpecs() []*spec {
 	add("protobuf", "PbEmpty", codec.PbEmpty{}, byPtr)
 	add("protobuf", "PbTest", pbtest.PbTest{}, byPtr)
 	add("protobuf", "Payload", pbpayload.Payload{}, byPtr)
+	add("protobuf", "Payload-websocket", wspayload.Payload{}, byPtr)
 	add("protobuf", "BenchmarkMessage", benchmsg.BenchmarkMessage{}, byPtr)
 	add("protobuf", "empty-struct", struct{}{})
 	add("protobuf", "odd-dest", nil, odd)
@@ -476,13 +495,26 @@ func buildSpecs() []*spec {
 	add("thrift", "empty-struct", struct{}{})
 	add("thrift", "odd-dest", nil, odd)
 
+	// body bypass: []byte / *[]byte bodies under a registered, the nil and an unregistered codec id
+	for _, b := range []struct {
+		name string
+		id   byte
+	}{{"json", codec.ID_JSON}, {"protobuf", codec.ID_PROTOBUF}, {"nil", codec.NilCodecID}, {"unregistered", 0xEE}} {
+		id := b.id
+		with := func(s *spec) { s.cd = bypass{id}; s.dest = destSlicePtr; s.fresh = true }
+		add("bypass", "bytes-codec-"+b.name, []byte{}, with, byValue)
+		add("bypass", "ptr-bytes-codec-"+b.name, []byte{}, with, byPtr)
+	}
+
 	canary := reflect.TypeOf([4]uint64{})
 	for _, s := range out {
-		cd, err := codec.Get(s.cfg.id)
-		if err != nil {
-			panic(err)
+		if s.cd == nil {
+			cd, err := codec.Get(s.cfg.id)
+			if err != nil {
+				panic(err)
+			}
+			s.cd = cd
 		}
-		s.cd = cd
 		if s.oddDest {
 			continue
 		}
